@@ -34,7 +34,10 @@ def run(res, tier, seed):
     st = vlib.mc(os.path.join(vlib.SPEC, "MC_Tsig.tla"), os.path.join(vlib.SPEC, "MC_Tsig.cfg"), wd, workers=8)
     res.add_mc("MC_Tsig", st)
     # ---- R
-    dts = "{0 - 301, 0 - 300, 0 - 299, 0 - 150, 0 - 1, 0, 1, 150, 299, 300, 301}" if tier == "thorough" else "{0 - 301, 0 - 299, 0, 300, 301}"
+    # around the fudge window, and around multiples of 2^16 seconds (a skew computed in 16 bits wraps there)
+    dts = ("{0 - 131072, 0 - 65836, 0 - 65636, 0 - 65536, 0 - 65436, 0 - 301, 0 - 300, 0 - 299, 0 - 150, 0 - 1, 0, 1, 150, 299, 300, "
+           "301, 65436, 65536, 65636, 65836, 131072, 131172}" if tier == "thorough"
+           else "{0 - 65536, 0 - 301, 0 - 299, 0, 300, 301, 65536, 65636}")
     tla, cfg = vlib.wrapper(wd, "GT", "Gen_Tsig", {"P_Dts": dts, "P_Tampers": TAMPERS}, GEN_CFG)
     cases, gst = vlib.gen(tla, cfg, wd, workers=8, timeout=1500)
     if len(cases) < 1000:
